@@ -193,7 +193,9 @@ func (p *proc) output() string {
 
 // startA launches the first run under the supervisor; k == 0: not paused.
 func (sc *scene) startA(k int) (*proc, error) {
-	args := []string{sc.vtrace, "--root", sc.inst, "--root", sc.sock, "--log", filepath.Join(sc.dir, "traceA")}
+	// --with-stat: stat-family calls on paths under the roots are pause points too (the first run
+	// performs no modifying call between `listen` and the launch of its first step)
+	args := []string{sc.vtrace, "--with-stat", "--root", sc.inst, "--root", sc.sock, "--log", filepath.Join(sc.dir, "traceA")}
 	if k > 0 {
 		args = append(args, "--pause-at", strconv.Itoa(k), "--ready", filepath.Join(sc.obs, "F"), "--resume", filepath.Join(sc.obs, "G"))
 	}
